@@ -98,35 +98,48 @@ theorem attribution_closed (evs : List Ev) (regs) (lines : List Int) (b : Blk) (
   exact h.2.1 c l
 
 /-- a byte-identical function registered second is padded: its block differs from the first one's — and from the
-    bytecode of *every* code object registered so far (`taken`), whatever was registered or re-registered before
-    (repair of F-C04b: `len(dupes_map[co_code]) + 1` NOPs alone are not unique across re-registrations) -/
-theorem twin_gets_fresh_block (dupes : List (Blk × Nat)) (taken : List Blk) (code : Prof.Code) (n : Nat)
-    (h : Prof.alookup code.blk dupes = some n) :
-    (Prof.padStep dupes taken code).1.blk ≠ code.blk ∧ (Prof.padStep dupes taken code).1.blk.base = code.blk.base ∧
-    (Prof.padStep dupes taken code).1.blk ∉ taken := by
-  refine ⟨?_, ?_, Prof.padStep_fresh dupes taken code n h⟩
-  · simp only [Prof.padStep, h]
-    intro heq
-    have := congrArg Blk.pad heq
-    have hge := Prof.findFree_ge taken code.blk.base (Prof.maxPad taken + 1) (code.blk.pad + (n + 2))
-    simp only at this
-    omega
-  · simp only [Prof.padStep, h]
+    bytecode of *every* code object registered so far (`codes`), whatever was registered or re-registered before
+    (repair of F-C04b: `len(dupes_map[co_code]) + 1` NOPs alone are not unique across re-registrations).  The same holds for a
+    function whose bytecode `dupes_map` does not know but which another registered code object already has (repair of F-C04c) -/
+theorem twin_gets_fresh_block (dupes : List (Blk × Nat)) (codes : List Prof.Code) (code : Prof.Code)
+    (h : (Prof.alookup code.blk dupes).isSome = true ∨ Prof.clashes codes code = true) :
+    (Prof.padStep dupes codes code).1.blk ≠ code.blk ∧ (Prof.padStep dupes codes code).1.blk.base = code.blk.base ∧
+    (Prof.padStep dupes codes code).1.blk ∉ codes.map (·.blk) := by
+  refine ⟨?_, ?_, Prof.padStep_fresh dupes codes code h⟩
+  · intro heq
+    have hp := congrArg Blk.pad heq
+    unfold Prof.padStep at hp
+    cases hd : Prof.alookup code.blk dupes with
+    | some n =>
+      simp only [hd] at hp
+      have hge := Prof.findFree_ge (codes.map (·.blk)) code.blk.base (Prof.maxPad (codes.map (·.blk)) + 1) (code.blk.pad + (n + 2))
+      omega
+    | none =>
+      rcases h with h | h
+      · rw [hd] at h; cases h
+      · simp only [hd, h, if_true] at hp
+        have hge := Prof.findFree_ge (codes.map (·.blk)) code.blk.base (Prof.maxPad (codes.map (·.blk)) + 1) (code.blk.pad + 2)
+        omega
+  · unfold Prof.padStep
+    split
+    · rfl
+    · split <;> rfl
 
-/-- **registered code objects never share a bytecode**: in every state reachable from a fresh profiler (functions declared with
-    compiler-produced bytecode; any number of registrations and re-registrations of byte-identical functions), two entries of
-    `code_hash_map` with the same bytecode are the same code object — so a bucket row belongs to one function's label only,
+/-- **registered code objects never share a bytecode**: in every state reachable from a fresh profiler — any number of
+    registrations and re-registrations of byte-identical functions, arriving with **any** bytecode (the compiler's, or one that an
+    earlier profiler of the same process had padded: no hypothesis on the declared functions since the repair of F-C04c) — two
+    entries of `code_hash_map` with the same bytecode are the same code object: a bucket row belongs to one function's label only,
     every registered key is owned by exactly one entry, and an entry owns all keys of its bytecode -/
-theorem registered_bytecodes_distinct (ops : List Prof.Op) (hraw : ∀ op ∈ ops, Prof.DeclRaw op)
+theorem registered_bytecodes_distinct (ops : List Prof.Op)
     (p q : Prof.Code × List (Blk × Int)) (hp : p ∈ (Prof.St.init.run ops).chm) (hq : q ∈ (Prof.St.init.run ops).chm)
     (hb : p.1.blk = q.1.blk) : p = q := by
-  have hown := (Prof.run_own ops Prof.St.init hraw Prof.init_own).ownV
+  have hown := (Prof.run_own ops Prof.St.init Prof.init_own).ownV
   exact Prof.entry_unique hown.codesNodup hp hq (hown.blkUnique p hp q hq hb)
 
 /-- … and buckets of lines that are not registered stay empty: nothing is recorded where `get_stats` does not look -/
-theorem unregistered_buckets_empty (ops : List Prof.Op) (hraw : ∀ op ∈ ops, Prof.DeclRaw op) (b : Blk) (c o : Int)
+theorem unregistered_buckets_empty (ops : List Prof.Op) (b : Blk) (c o : Int)
     (h : (b, c) ∉ (Prof.St.init.run ops).core.abs.regs) : (Prof.St.init.run ops).core.abs.hits b c o = 0 :=
-  (Prof.run_own ops Prof.St.init hraw Prof.init_own).ownV.zero b c o h
+  (Prof.run_own ops Prof.St.init Prof.init_own).ownV.zero b c o h
 
 /-- **F-C04a witness**: block ⟨0,0⟩ line 2 is registered (function f); an *unregistered* byte-identical
     function running on the same line number (frame 9) produces events the callback cannot tell from f's:
@@ -143,12 +156,30 @@ theorem alias_witness :
 theorem padding_clash_repaired :
     let code (lab : Nat) : Prof.Code := ⟨⟨0, 0⟩, lab, [5, 6]⟩
     let r1 := Prof.padStep [] [] (code 0)                                   -- add f
-    let r2 := Prof.padStep r1.2 [r1.1.blk] (code 1)                         -- add t      (3 NOPs)
-    let r3 := Prof.padStep r2.2 [r1.1.blk, r2.1.blk] r2.1                   -- add t again: its padded bytes are new to dupes_map
-    let r4 := Prof.padStep r3.2 [r1.1.blk, r2.1.blk] r3.1                   -- add t again: 6 NOPs
-    let r5 := Prof.padStep r4.2 [r1.1.blk, r2.1.blk, r4.1.blk] r1.1         -- add f again (4 NOPs)
-    let r6 := Prof.padStep r5.2 [r1.1.blk, r2.1.blk, r4.1.blk, r5.1.blk] (code 2)             -- add u (5 NOPs)
-    let r7 := Prof.padStep r6.2 [r1.1.blk, r2.1.blk, r4.1.blk, r5.1.blk, r6.1.blk] (code 3)   -- add v: 6 is taken -> 7
+    let r2 := Prof.padStep r1.2 [r1.1] (code 1)                             -- add t      (3 NOPs)
+    let r3 := Prof.padStep r2.2 [r1.1, r2.1] r2.1                           -- add t again: its padded bytes are new to dupes_map
+    let r4 := Prof.padStep r3.2 [r1.1, r2.1] r3.1                           -- add t again: 6 NOPs
+    let r5 := Prof.padStep r4.2 [r1.1, r2.1, r4.1] r1.1                     -- add f again (4 NOPs)
+    let r6 := Prof.padStep r5.2 [r1.1, r2.1, r4.1, r5.1] (code 2)           -- add u (5 NOPs)
+    let r7 := Prof.padStep r6.2 [r1.1, r2.1, r4.1, r5.1, r6.1] (code 3)     -- add v: 6 is taken -> 7
     r4.1.blk = ⟨0, 6⟩ ∧ r7.1.blk = ⟨0, 7⟩ := by decide
+
+/-- **F-C04c (repaired)**: three copies a, b, c (labels 0-2) of one function on the same lines.  An earlier profiler had a and b,
+    so b arrives with 3 NOPs; this profiler gets a, c, b: it pads c to 3 NOPs — b's very bytes, which `dupes_map` (keyed by what
+    it was handed: ⟨0,0⟩) does not know.  Before the repair b was registered as it came and shared c's line hashes (`beforeRepair`:
+    the old duplicate test); now the clash with c's registered bytecode is seen and b is padded on (real code:
+    `corpus/C04/f-c04c-earlier-profiler.json`). -/
+def beforeRepair (dupes : List (Blk × Nat)) (codes : List Prof.Code) (code : Prof.Code) : Prof.Code :=
+  match Prof.alookup code.blk dupes with
+  | some n => { code with blk := { code.blk with pad := Prof.findFree (codes.map (·.blk)) code.blk.base (code.blk.pad + (n + 2)) (Prof.maxPad (codes.map (·.blk)) + 1) } }
+  | none => code
+theorem earlier_profiler_clash_repaired :
+    let a : Prof.Code := ⟨⟨0, 0⟩, 0, [2, 3]⟩
+    let b : Prof.Code := ⟨⟨0, 3⟩, 1, [2, 3]⟩        -- padded by the earlier profiler
+    let c : Prof.Code := ⟨⟨0, 0⟩, 2, [2, 3]⟩
+    let r1 := Prof.padStep [] [] a
+    let r2 := Prof.padStep r1.2 [r1.1] c
+    let r3 := Prof.padStep r2.2 [r1.1, r2.1] b
+    r2.1.blk = ⟨0, 3⟩ ∧ (beforeRepair r2.2 [r1.1, r2.1] b).blk = r2.1.blk ∧ r3.1.blk = ⟨0, 5⟩ := by decide
 
 end LPVerif.Props.C04
